@@ -430,7 +430,7 @@ def canon_world(w):
 # ------------------------------------------------------------------------------------------------ world families
 def _std_storage(w, name, **kw):
     d = dict(data_storage_duration=Q(3, "hour"), data_replication_factor=Q(2, "dimensionless"),
-             storage_capacity=Q(1, "terabyte"), base_storage_need=Q(0, "terabyte"))
+             storage_capacity=Q(1, "terabyte"), base_storage_need=Q(0, "terabyte"), fixed_nb_of_instances=["e"])
     d.update(kw)
     add(w, name, "Storage", **d)
 
